@@ -20,6 +20,9 @@ def shell_family(seed, n):
         out["mask"] = pe(rnd.choice(["*.toml", "it's", "*.(c|h)", "a b", "$(touch CANARY7)"]))
         nm = D.ar("n0", "opt", "str", "--name", help=h())
         nm["completer"] = [pe(x) for x in rnd.sample(["cv1", "cv'2", "cv 3", "cv$(touch CANARY8)", "cv;4", "cv\"5", "cvx"], 3)]
+        if i % 3 == 1:
+            # values that come with a description of the completer's own - also one of several lines
+            nm["completer"] = [[c, pe(dsc)] for c, dsc in zip(nm["completer"], ["plain description", "two\nlines; rm -rf is not a candidate", "it's $(touch CANARY10)"])]
         if rnd.random() < 0.5:
             nm["cgroup"] = pe(rnd.choice(["grp", "grp's", "g $(touch CANARY9)"]))
         named += [out, nm]
